@@ -186,6 +186,11 @@ func txtarOracle(res *corr.Result, d []byte) {
 			}
 		}
 	}
+	// second reading of the statement, independent of the implementation's own Parse:
+	// "... that is when the body contains a file marker line, whether or not the body ends in a newline".
+	if !nqPanic && nq != hasMarkerLineIndep(d) {
+		res.Violate("C14", in, fmt.Sprintf("NeedsQuote=%v but body has-marker-line=%v", nq, !nq), "needsquote-vs-marker-line")
+	}
 	q, qerr := txtar.Quote(append([]byte{}, d...))
 	if qerr == nil {
 		u, uerr := txtar.Unquote(append([]byte{}, q...))
@@ -362,7 +367,26 @@ func runTxtar(tier string, seed int64, model string, replay string) *corr.Result
 	for i, d := range inputs {
 		impl := txtarImplLine(d)
 		if impl != modelOut[i] {
-			res.Disagree(cases[i], impl, modelOut[i])
+			// P F PFP R T are C03's observables, NQ Q U are C14's
+			var props []string
+			fi, fm := strings.Fields(impl), strings.Fields(modelOut[i])
+			c03, c14 := len(fi) != len(fm), len(fi) != len(fm)
+			for k := 0; k < len(fi) && k < len(fm); k++ {
+				if fi[k] != fm[k] {
+					if strings.HasPrefix(fi[k], "NQ=") || strings.HasPrefix(fi[k], "Q=") || strings.HasPrefix(fi[k], "U=") {
+						c14 = true
+					} else {
+						c03 = true
+					}
+				}
+			}
+			if c03 {
+				props = append(props, "C03")
+			}
+			if c14 {
+				props = append(props, "C14")
+			}
+			res.DisagreeFor(props, cases[i], impl, modelOut[i])
 		}
 		txtarOracle(res, d)
 		if bytes.HasPrefix(d, []byte("-- ")) || bytes.Contains(d, []byte("\n-- ")) {
@@ -384,7 +408,7 @@ func runTxtar(tier string, seed int64, model string, replay string) *corr.Result
 		i := len(inputs) + j
 		impl := wfImplLine(a)
 		if impl != modelOut[i] {
-			res.Disagree(cases[i], impl, modelOut[i])
+			res.DisagreeFor([]string{"C03"}, cases[i], impl, modelOut[i])
 		}
 		if wellFormedIndep(a) {
 			wf++
